@@ -1692,7 +1692,8 @@ def rule_t6_scc(chk: Check):
         raise AnalysisError("pegen/sccutils.py: strongly_connected_components / find_cycles_in_scc vanished")
 
     def graphs():
-        for names, masks in ((("a", "b", "c"), range(512)), (("a", "b", "c", "d"), range(0, 65536, 131))):
+        step4 = 1 if getattr(chk, "tier", "quick") == "thorough" else 131        # thorough: every four-vertex digraph (65536)
+        for names, masks in ((("a", "b", "c"), range(512)), (("a", "b", "c", "d"), range(0, 65536, step4))):
             n = len(names)
             for m in masks:
                 yield names, {names[i]: [names[j] for j in range(n) if m >> (i * n + j) & 1] for i in range(n)}
